@@ -153,9 +153,14 @@ def run(prop, repo, seed):
         cF, croles, cR, _cv = engine.run_best(cfd)
         skip = CONFIG_SKIP.get(cfg, ())
         bad = []
+        known_keys = {k for (p_, k) in checkmod.load_known() if p_ == prop}
         for o in cR.for_prop(prop):
             if o['ok']:
                 continue
+            if o['key'] == 'floor:rule-present':
+                continue  # the expected-rule floors are counted on the main configuration (all features); a feature-gated rule is absent here
+            if checkmod.vkey(o) in known_keys:
+                continue  # a recorded open finding shows in every configuration; it is reported once, by the main configuration
             if o['status'] in ('FLOOR', 'ANCHOR-MISSING') and (skip is None or o['rule'] in skip or o['rule'].split('-')[0] in skip):
                 continue
             if skip is None and not (o['rule'].startswith(('G', 'E', 'ORD', 'C07G', 'C10', 'N')) and o['where'].startswith('graph/')):
